@@ -40,6 +40,8 @@ pub enum Op {
     ColWidth { sheet: usize, col: u32, w: f64 },
     RowHeight { sheet: usize, row: u32, h: f64 },
     Table { sheet: usize, name: String, top: u32 },
+    CommentRich { sheet: usize, cell: String, author: String, parts: Vec<String> },
+    EditComment { sheet: usize, nth: usize, text: String },
 }
 
 impl Op {
@@ -73,6 +75,8 @@ impl Op {
             Op::ColWidth { .. } => "col_width",
             Op::RowHeight { .. } => "row_height",
             Op::Table { .. } => "table",
+            Op::CommentRich { .. } => "comment_rich",
+            Op::EditComment { .. } => "edit_comment",
         }
     }
 }
@@ -240,6 +244,31 @@ pub fn apply(book: &mut Spreadsheet, op: &Op) -> bool {
         Op::RowHeight { sheet, row, h } => sheet_mut(book, *sheet).map(|s| {
             s.get_row_dimension_mut(row).set_height(*h);
         }),
+        Op::CommentRich { sheet, cell, author, parts } => sheet_mut(book, *sheet).map(|s| {
+            let mut c = umya::Comment::default();
+            c.new_comment(cell.as_str());
+            c.set_author(author.clone());
+            let mut rt = umya::RichText::default();
+            for (i, p) in parts.iter().enumerate() {
+                let mut te = umya::TextElement::default();
+                te.set_text(p.clone());
+                if i == 0 {
+                    te.get_font_mut().set_bold(true);
+                }
+                rt.add_rich_text_elements(te);
+            }
+            c.set_text(rt);
+            s.add_comments(c);
+        }),
+        Op::EditComment { sheet, nth, text } => sheet_mut(book, *sheet).and_then(|s| {
+            let n = s.get_comments().len();
+            if n == 0 {
+                None
+            } else {
+                s.get_comments_mut()[*nth % n].set_text_string(text.clone());
+                Some(())
+            }
+        }),
         Op::Table { sheet, name, top } => sheet_mut(book, *sheet).map(|s| {
             // a 2x2 table with a header row; header cells must hold the column names
             let r0 = *top;
@@ -300,8 +329,8 @@ pub struct GenCfg {
     pub sheets: usize,
     pub ncells: usize,
     pub alpha: usize,
-    /// weights: text, rich, num, bool, formula, remove, style, hyperlink, comment, merge, defined name, table
-    pub w: [u32; 12],
+    /// weights: text, rich, num, bool, formula, remove, style, hyperlink, comment, merge, defined name, table, sheet-local name
+    pub w: [u32; 13],
 }
 
 pub fn gen_cell_op(rng: &mut Rng, cfg: &GenCfg, tag: &str) -> Op {
@@ -343,7 +372,7 @@ pub fn gen_cell_op(rng: &mut Rng, cfg: &GenCfg, tag: &str) -> Op {
             location: false,
             tooltip: String::new(),
         },
-        8 => Op::Comment { sheet, cell, author: format!("author{}", rng.below(3)), text: tagged(rng, tag, cfg.alpha) },
+        8 => Op::Comment { sheet, cell, author: ["alice", "Bob", "yves", "Zed & <Co>", "éva", "Émile", "bob", "ALICE"][rng.usize(8)].to_string(), text: tagged(rng, tag, cfg.alpha) },
         9 => {
             // non-overlapping by construction: the row band derives from the (unique) step tag
             let k: u32 = tag.chars().filter(|c| c.is_ascii_digit()).collect::<String>().parse::<u32>().unwrap_or(0) % 5000;
@@ -351,7 +380,8 @@ pub fn gen_cell_op(rng: &mut Rng, cfg: &GenCfg, tag: &str) -> Op {
             Op::Merge { sheet, range: format!("I{}:{}{}", 10 + 3 * k, (b'I' + w) as char, 11 + 3 * k) }
         }
         10 => Op::DefinedName { sheet, name: format!("name_{}_{}", tag.replace(['#', ':'], "_"), rng.below(100)), address: format!("$A${}", 1 + rng.below(9)) },
-        _ => Op::Table { sheet, name: format!("T_{}", tag.replace(|c: char| !c.is_ascii_alphanumeric(), "_")), top: 20 + 3 * rng.below(10) as u32 },
+        11 => Op::Table { sheet, name: format!("T_{}", tag.replace(|c: char| !c.is_ascii_alphanumeric(), "_")), top: 20 + 3 * rng.below(10) as u32 },
+        _ => Op::LocalName { sheet, name: format!("ln_{}", tag.replace(|c: char| !c.is_ascii_alphanumeric(), "_")), address: format!("$B${}", 1 + rng.below(9)) },
     }
 }
 
